@@ -23,7 +23,7 @@ func (c04) Budget(tier string) int {
 	if tier == "thorough" {
 		return 400000
 	}
-	return 2048 + 6000
+	return 2048 + 48000
 }
 
 func (c04) Describe() engine.Info {
@@ -35,7 +35,7 @@ func (c04) Describe() engine.Info {
 			"HALT is excluded here (C05); HALT directly after EI is never generated (hardware corner outside the statement)",
 			"instruction lengths other than the dispatch itself are C02's business",
 		},
-		RequiredProbes: []string{"dispatch", "irq_raised_mid_instruction", "dispatch_after_ei_delay", "boundary_pending_but_ime_clear", "reti", "if_written_by_guest"},
+		RequiredProbes: []string{"dispatch", "irq_raised_mid_instruction", "dispatch_after_ei_delay", "boundary_pending_but_ime_clear", "reti", "if_written_by_guest", "dispatch_pushes_onto_ie"},
 		RealComponents: realComponents, StubComponents: stubComponents,
 		Sweeps: []string{"all 2048 IE x IF x IME combinations at a boundary (indices 0..2047)"},
 	}
@@ -60,6 +60,33 @@ func (c04) Generate(r *engine.Rand, index int, tier string) *engine.Scenario {
 		sc.SetP("if", int64(index>>5&31))
 		sc.SetP("ime", int64(index>>10&1))
 		sc.Cycles = 64
+		return sc
+	}
+	if index%8 == 7 {
+		// the dispatch pushes onto IE: SP = 0000 (high byte of the return address lands on FFFF) or
+		// 0001 (low byte). The interrupt taken is still the highest-priority one that was enabled and
+		// requested at the boundary. Handlers park (a return through a stack in ROM would go astray).
+		sc.Class = "stack-on-ie"
+		g.code = g.code[:0]
+		g.emit16(0x31, uint16(r.Intn(2)))
+		iff := r.Byte() & 0x1f
+		if iff == 0 {
+			iff = 1 << uint(r.Intn(5))
+		}
+		ie := iff&r.Byte() | r.Byte()&0xe0
+		if ie&0x1f == 0 || r.Bool() {
+			ie |= iff
+		}
+		g.emit(0x3e, ie, 0xe0, 0xff)
+		g.emit(0x3e, iff|r.Byte()&0xe0, 0xe0, 0x0f)
+		g.filler(r.Intn(4))
+		g.emit(0xfb)
+		g.filler(r.Range(1, 3))
+		g.emit(0x00, 0x00, 0x00, 0x00)
+		g.finish()
+		lsScenario(sc, r, g)
+		sc.Cart.Handler = "18fe"
+		sc.Cycles = uint64(len(g.code))*2 + 80
 		return sc
 	}
 	sc.Class = "sequence"
@@ -172,6 +199,9 @@ func (c04) Execute(sc *engine.Scenario) *engine.Result {
 		what := kind
 		if kind == "dispatch" {
 			res.Probe("dispatch")
+			if l.pre.SP < 2 {
+				res.Probe("dispatch_pushes_onto_ie")
+			}
 			if sinceEI == 2 {
 				res.Probe("dispatch_after_ei_delay")
 			}
